@@ -215,6 +215,24 @@ CHECKS['C15'] = ('DESIGN.md#C15',
     'different number of detections under float32 is counted as a decision '
     'flip, not a violation. Entries declare admitted representations.')
 
+CHECKS['C17'] = ('DESIGN.md#C17',
+    'Hypothesis-generated cutouts/sources/masks/position lists vs. direct '
+    'weighted means, analytic quadratic vertices, symmetry centres, '
+    'metamorphic flips/transpose/rescale/garbage-under-mask relations, and '
+    'a per-cutout differential for centroid_sources',
+    'Generated-input search: centroid_com equals the direct intensity-'
+    'weighted mean; centroid_quadratic returns the vertex of exactly '
+    'quadratic data for every fit box, mask leaving a rank-6 design matrix '
+    'and xpeak/ypeak/search_boxsize form; point-symmetric sources give their '
+    'symmetry centre; all four functions commute with flips, transposition, '
+    'positive rescaling and ignore values under the mask; centroid_sources '
+    'equals the chosen function applied to each position\'s own cutout '
+    '(footprint, mask, error, window clipped at edges) and is independent '
+    'of the other positions and their order. Held on N cases; not a proof.',
+    'Trusted: astropy overlap_slices for the cutout window. Gaussian fits '
+    'only on background-subtracted, well-contained sources (documented '
+    'precondition); tolerances 1e-5..1e-3 px for fits.')
+
 NOT_APPLICABLE = []
 
 
